@@ -41,6 +41,53 @@ def iter_obs(tr):
         yield kind, e, acc, when
 
 
+
+def marked_at_bar_monitor(clause, acct):
+    """Daily frequency: whoever observes the account at a fill made at bar time (a TRADE handler) sees every held leg of an instrument with a bar today
+    marked at THAT bar's close — also at fills made by the arrival of the bar (resting auction orders), before handle_bar runs."""
+    def mon(ctx, tr, ix):
+        if tr.cfg.get("frequency", "1d") != "1d":
+            return
+        rp = replay_of(tr)
+        seen = False
+        for kind, e in tr.events:
+            if kind != "TRADE" or e["cal"].hour != 15 or not e.get("accounts"):
+                continue
+            a = e["accounts"].get(acct)
+            if a is None:
+                continue
+            d8_ = B.d8(e["cal"].date())
+            ctx.stats["bar_time_fill_observations"] += 1
+            for h in a["holdings"]:
+                bar = ix.bar(h["id"], d8_)
+                if bar is None or bar[2] != bar[2]:
+                    continue
+                for side in ("long", "short"):
+                    p = h[side]
+                    if p["qty"] and not near(p["last"], bar[2], 1e-12) and not seen:
+                        seen = True
+                        ctx.witness(clause, {"kind": "holding_not_marked_at_bar_time_fill", "account": acct, "by_bar_arrival": e.get("phase_hint") != "BAR"},
+                                    "fill of %s at %s (observed in a TRADE handler): the %s account still carries %s %s x %s at %r although the day's bar (close %r) has arrived"
+                                    % (e["trade"]["book"], e["cal"], acct, h["id"], side, p["qty"], p["last"], bar[2]), rp)
+    return mon
+
+
+def positions_view_monitor(clause, acct):
+    """`account.positions` / `context.portfolio.positions` (a cached view of the position table, first read before any trading) lists exactly the holdings the account reports"""
+    def mon(ctx, tr, ix):
+        rp = replay_of(tr)
+        for kind, e, acc, when in iter_obs(tr):
+            a = acc.get(acct) if acc else None
+            if a is None or "view" not in a:
+                continue
+            ctx.stats["positions_view_observations"] += 1
+            ids = [h["id"] for h in a["holdings"]]
+            if a["view"] != ids:
+                ctx.witness(clause, {"kind": "positions_view_differs_from_holdings", "account": acct},
+                            "%s at %s: account.positions lists %r, the %s account holds %r" % (kind, when, a["view"] if isinstance(a["view"], str) else a["view"][:6], acct, ids[:6]), rp)
+                return
+    return mon
+
 # ----------------------------------------------------------------------------------------------------------- C02
 def c02_monitor(ctx, tr, ix):
     cfgk, S = tr.cfg, tr.S
@@ -713,6 +760,13 @@ FINAL = {"FILLED", "REJECTED", "CANCELLED"}
 
 
 def c04_monitor(ctx, tr, ix):
+    for kind_, e_ in tr.events:
+        if kind_ == "AFTER_TRADING_CB":
+            ctx.stats["after_trading_callbacks_observed"] += 1
+            if e_["open"] or e_["live"]:
+                ctx.witness("C04.5", {"kind": "open_in_after_trading_callback"}, "the strategy's after_trading() on %s still sees open orders %r (orders not final: %r): the close has not expired them yet"
+                            % (e_["cal"].date(), [(i % 100000, st) for i, st in e_["open"][:4]], [(i % 100000, st) for i, st in e_["live"][:4]]), replay_of(tr))
+                break
     rp = replay_of(tr)
     status = {}          # order id -> last status seen
     trades = collections.defaultdict(lambda: {"q": 0, "pq": 0.0, "cost": 0.0})
